@@ -611,6 +611,7 @@ set_iand(Bucket* self, PyObject* other)
     iter = PyObject_GetIter(other);
     if (iter == NULL) {
         PyErr_Clear();
+        Py_DECREF(tmp_list);
         Py_INCREF(Py_NotImplemented);
         return Py_NotImplemented;
     }
